@@ -209,15 +209,26 @@ func c13Run(r *tr.Run, cs c13Case) {
 	}
 	router, _ := message.NewRouter(message.RouterConfig{CloseTimeout: 5 * time.Second}, nil)
 	sub := scripted.NewSub("the-sub")
+	// the middleware is applied by hand, ONCE: the same wrapped function serves every message (and, in the warm-up variant,
+	// a second handler with other names first) -- what it writes about a message must come from that message alone
+	wrapped := mw(func(m *message.Message) ([]*message.Message, error) {
+		_, e := handler(m)
+		return nil, e
+	})
 	h := router.AddNoPublisherHandler("the-handler", "in-topic", sub, func(m *message.Message) error {
-		_, e := mw(func(m *message.Message) ([]*message.Message, error) {
-			_, e := handler(m)
-			return nil, e
-		})(m)
+		_, e := wrapped(m)
 		r.Emit("ret", "r", classify(e))
 		return e
 	})
 	_ = h
+	warm := cs.Meta == "some"
+	warmSub := scripted.NewSub("warm-sub")
+	if warm {
+		router.AddNoPublisherHandler("warm-handler", "warm-topic", warmSub, func(m *message.Message) error {
+			_, e := wrapped(m)
+			return e
+		})
+	}
 	ctx, cancel := context.WithCancel(context.Background())
 	defer cancel()
 	done := make(chan struct{})
@@ -227,6 +238,18 @@ func c13Run(r *tr.Run, cs c13Case) {
 	case <-time.After(HangBound):
 		r.Emit("hung")
 		return
+	}
+	if warm {
+		r.Quiet(true) // the warm-up message is not part of the case
+		wm := message.NewMessage(fmt.Sprintf("u%d-warm", r.ID), []byte("warm"))
+		if warmSub.Emit("warm-topic", wm) {
+			select {
+			case <-wm.Acked():
+			case <-wm.Nacked():
+			case <-time.After(HangBound):
+			}
+		}
+		r.Quiet(false)
 	}
 	if !sub.Emit("in-topic", msg) {
 		r.Emit("hung")
